@@ -13,6 +13,7 @@ from __future__ import annotations
 import asyncio
 import collections
 import logging
+import sys
 import threading
 import types
 
@@ -20,6 +21,8 @@ from . import gate as G
 
 TICK = G.TICK
 MAX_STEPS = 400
+MAX_STEPS_LINES = 4000
+EARLY_BUDGET = 2          # early expiries of timed waits per run
 
 
 # --------------------------------------------------------------------------
@@ -87,6 +90,9 @@ class BCtl(G.Ctl):
     records a second, spurious ('x', 'start') decision.  Traces (and the schedule tree
     explored from them) became timing dependent.  Here the initial wait only waits."""
 
+    tracer = None                 # sys.settrace function for managed threads (line-level scheduling)
+    early_budget = 0              # early expiries of timed waits still allowed in this run
+
     def _body(self, rec, fn):
         G._tls.rec = rec
         G._tls.ctl = self
@@ -98,6 +104,8 @@ class BCtl(G.Ctl):
                     self.cv.wait(1.0)
                 if self.aborting:
                     raise G._Abort()
+            if self.tracer is not None:
+                sys.settrace(self.tracer)
             fn()
         except G._Abort:
             pass
@@ -109,6 +117,26 @@ class BCtl(G.Ctl):
                 if self.turn == rec['name']:
                     self.turn = None
                 self.cv.notify_all()
+
+
+BRIDGE_FUNCS = ('to_async_iter', 'to_sync_iter')
+
+
+def line_tracer(ctl, filename):
+    """Trace function making every source LINE of the bridge functions (and of the
+    functions nested in them) a gate ('line') of the executing managed thread."""
+    def local(frame, event, arg):
+        if event == 'line':
+            ctl.gate('line')
+        return local
+
+    def glob(frame, event, arg):
+        if event == 'call':
+            co = frame.f_code
+            if co.co_filename == filename and co.co_qualname.startswith(BRIDGE_FUNCS):
+                return local
+        return None
+    return glob
 
 
 class BLoop(G.GVLoop):
@@ -197,8 +225,29 @@ class GQueue:
 
     def get(self, block=True, timeout=None):
         c = self._ctl()
-        if c is not None:
-            c.gate('q.get', enabled=lambda: bool(self.d))
+        if not block:
+            return self.get_nowait()
+        if c is not None and c.me() is not None:
+            if timeout is None:
+                c.gate('q.get', enabled=lambda: bool(self.d))
+            else:
+                # timed get: resolved by an item, by virtual-time expiry, or -- a bounded number of
+                # times per run -- by an EARLY expiry while other threads are still enabled (a
+                # wall-clock timeout races with the other threads' progress; the controller's
+                # "time only advances when nobody is enabled" rule alone would hide that race)
+                import queue
+                deadline = c.vt + max(0.0, timeout)
+                c.gate('q.tget', when=lambda: deadline,
+                       enabled=lambda: bool(self.d) or c.vt >= deadline - G.EPS
+                       or getattr(c, 'early_budget', 0) > 0)
+                if not self.d:
+                    if c.vt < deadline - G.EPS:
+                        c.early_budget = getattr(c, 'early_budget', 0) - 1
+                        c.vt = deadline
+                    raise queue.Empty
+        elif not self.d:
+            import queue
+            raise queue.Empty
         return self.d.popleft()
 
     def get_nowait(self):
@@ -438,7 +487,11 @@ def run_gated(case, chooser=None):
         dues.append(due)
         return chooser(step, en, c)
 
-    ctl = BCtl(ch, max_steps=MAX_STEPS)
+    lines = bool(case.get('lines'))
+    ctl = BCtl(ch, max_steps=MAX_STEPS_LINES if lines else MAX_STEPS)
+    ctl.early_budget = int(case.get('early', EARLY_BUDGET if lines else 0))
+    if lines:
+        ctl.tracer = line_tracer(ctl, A.__file__)
     saved = (A.ThreadPoolExecutor, A.queue)
     before = set(threading.enumerate())
     A.ThreadPoolExecutor = lambda *a, **kw: BExecutor(*a, run=run, **kw)
